@@ -162,7 +162,18 @@ def r07_5(ctx) -> None:
         sep = kw.get("separators")
         ok = isinstance(sep, ast.Tuple) and [const_value(e) for e in sep.elts] == [",", ":"] and is_const(kw.get("ensure_ascii", ast.Constant(value=True)), True)
     rets = [norm(r.value) for r in fn_nodes(je) if isinstance(r, ast.Return)]
-    ok = ok and rets == ["urlsafe_b64encode(to_bytes(text, 'ascii'))"]
+    pt = je.pos_params[0]
+    ok = ok and rets == [f"urlsafe_b64encode(to_bytes({pt}, 'ascii'))"]
+    # everything that is ever bound to the text that gets encoded is the output of that json.dumps call on the given object: no hand-written
+    # formatter beside it, no `default=` / `cls=` hook that would serialise objects which are not JSON values
+    binds = [n for n in fn_nodes(je) if isinstance(n, (ast.Assign, ast.AnnAssign, ast.AugAssign)) and any(isinstance(x, ast.Name) and x.id == pt and isinstance(x.ctx, ast.Store)
+             for t_ in (n.targets if isinstance(n, ast.Assign) else [n.target]) for x in ast.walk(t_))]
+    for b in binds:
+        v = b.value
+        good = isinstance(v, ast.Call) and norm(v.func) == "json.dumps" and len(v.args) == 1 and norm(v.args[0]) == pt and {k.arg for k in v.keywords} <= {"ensure_ascii", "separators"}
+        ctx.check(good, "R07.5", je, b, f"{je.short} :: {norm(b)[:60]}", f"the header text that is signed can be `{norm(v)[:70]}`, which is not the JSON serialisation of the header by json.dumps "
+                  "without hooks (a hand-written formatter does not escape '\"' and '\\'; a default= hook serialises non-JSON objects)", "text = json.dumps(text, ensure_ascii=True, separators=(',', ':'))",
+                  construct=f"header text bound to {norm(v)[:50]}")
     ctx.check(ok, "R07.5", je, je.node, je.short, "header JSON is not serialised compactly in ASCII and base64url-encoded", "json.dumps(separators=(',', ':'), ensure_ascii=True) -> urlsafe_b64encode",
               construct="json_b64encode")
     ue = P.func("util:urlsafe_b64encode")
